@@ -72,7 +72,7 @@ func CheckC11(c *core.Case) error {
 	if e := c11Compare("fresh buffer", fp, ferr, p); e != nil {
 		return e
 	}
-	b := primedBuffer()
+	b := replayBuffer(c)
 	for _, s := range c.Steps {
 		rjson.SkipValueFast(s.In, b)
 	}
@@ -93,6 +93,10 @@ func (s *c11State) input(kind string, in []byte) error {
 		// outside the property's domain; still exercised (must return), not counted as non-trivial
 		rjson.SkipValueFast(in, &s.used)
 		s.hist.add(in)
+		if s.hist.full() {
+			s.used = rjson.Buffer{}
+			s.hist.reset()
+		}
 		s.r.EvalN(1)
 		s.r.Label("domain.skipvalue-fails")
 		return nil
@@ -114,8 +118,12 @@ func (s *c11State) input(kind string, in []byte) error {
 	}
 	fp, ferr = rjson.SkipValueFast(in, &s.used)
 	if e := c11Compare("long-lived buffer", fp, ferr, p); e != nil {
-		return &caseErr{&core.Case{Prop: "C11", Kind: kind, In: append([]byte(nil), in...), Steps: s.hist.steps("C11")}, e}
+		return &caseErr{&core.Case{Prop: "C11", Kind: kind, In: append([]byte(nil), in...), Steps: s.hist.steps("C11"), Strs: []string{freshHistory}}, e}
 	}
 	s.hist.add(in)
+	if s.hist.full() {
+		s.used = rjson.Buffer{}
+		s.hist.reset()
+	}
 	return nil
 }
